@@ -134,7 +134,7 @@ def gen(rng, i, tier):
     else:
         form = "plain"
     return {"kind": kind, "z": z, "table": tab, "qseed": rng.randrange(1 << 30), "const": const,
-            "nq": 40 if tier == "quick" else 60, "axis_form": form, "numtype": numtype}
+            "nq": 40 if tier == "quick" else 60, "axis_form": form, "numtype": numtype, "one_object": i % 3 != 0}
 
 
 def directed():
@@ -225,6 +225,18 @@ def queries(rng, tab, n):
         return ax[-1] * rng.choice([1.001, 2.0, 10.0, rng.uniform(1.0, 10.0)]), "out"
 
     out = []
+    if len(vis) > 1 and len(ios) > 1:
+        # consecutive lookups beyond OPPOSITE vi edges at a load current strictly inside the io axis, with no lookup
+        # inside the vi range in between (a sweep that jumps from one side of the table to the other)
+        for _ in range(2):
+            k = rng.randrange(len(ios) - 1)
+            io_mid = ios[k] + rng.uniform(0.2, 0.8) * (ios[k + 1] - ios[k])
+            lo = vis[0] * rng.choice([0.5, 0.9]) if vis[0] > 0 else None
+            hi = vis[-1] * rng.choice([1.2, 3.0])
+            seq = [(io_mid, hi, "in", "out")] + ([(io_mid, lo, "in", "out")] if lo else []) + [(io_mid, hi, "in", "out")]
+            if rng.random() < 0.5:
+                seq.reverse()
+            out += seq
     for _ in range(n):
         io, a = pick(ios)
         vi, b = pick(vis)
@@ -261,7 +273,18 @@ def run(ctx, case):
         neg = rng.random() < 0.3
         V = -vi if neg else vi
         spec = probe_spec(kind, z, raw_tab, V, io)
-        st, sysobj = H.try_build(spec)
+        if case.get("one_object", True):
+            # ONE tabulated component object serves every probe system of the case (a part definition re-used across
+            # what-if systems): a lookup must not depend on the lookups made before it
+            def _mk():
+                so_ = ns.System("probe", ns.KINDS["Source"]("S", vo=V))
+                so_.add_comp("S", comp=comp)
+                so_.add_comp("X", comp=ns.KINDS["ILoad"]("L", ii=io))
+                return so_
+
+            st, sysobj = H.call(_mk)
+        else:
+            st, sysobj = H.try_build(spec)
         if st != "ok":
             raise RuntimeError("probe rejected: %s" % H.exc_sig(sysobj))
         _log["calls"] = []
